@@ -48,9 +48,11 @@ Res(op, in, strict, dialect, p) ==
     IF op \in {"CtxDone", "CtxFire"} THEN [ok |-> FALSE, loc |-> "cancelled"]
     ELSE CASE in \in {"valid", "deep"}  -> Ok
            [] in \in {"badA", "badB"}   -> Fail(p)
-           \* strict mode is consulted by Parse and ParseWithPositions only (the context and recovery
-           \* loops do not look at it: a deliberate transcription of the code, not part of this property)
-           [] in = "semis"              -> IF strict /\ op \in {"Parse", "ParsePos"} THEN Fail(p) ELSE Ok
+           \* strict mode is consulted by Parse, ParseWithPositions and ParseContext (the recovery loop does not
+           \* look at it).  Until e3dba82 the context loop did not either, and this line said so as a transcription
+           \* of the code; C11's pair on a strict parser showed it to be a defect (a context that never fires must
+           \* yield the result of the context-free call) and the code was repaired.
+           [] in = "semis"              -> IF strict /\ op \in {"Parse", "ParsePos", "ParseCtx"} THEN Fail(p) ELSE Ok
            [] in = "mylimit"            -> IF dialect = "mysql" THEN Ok ELSE Fail(p)
 
 \* The position mapping in effect during a call.
